@@ -35,7 +35,7 @@ ASSUMPTIONS = [
     "inner whitespace may collapse (C12)",
 ]
 
-MENU = ["ply", "plywool", "plyw", "sys", "xyx", "SysOp", "mo-ply", "r.sys", "sea", "seattle"]
+MENU = ["ply", "plywool", "plyw", "sys", "xyx", "SysOp", "mo-ply", "r.sys", "sea", "seattle", "Straßen"]
 USER_RESERVED = "PlyRouter"
 SALTS = ["saltForTest", "seedsalt"]
 
